@@ -132,6 +132,7 @@ fn multiset(v: impl IntoIterator<Item = String>) -> BTreeMap<String, usize> {
 /// Compare mentions with the expected methods; `matches(mention, method)`.
 fn method_findings(mentions: &[String], methods: &[String], eq: impl Fn(&str, &str) -> bool, what: &str) -> Vec<Finding> {
     let mut out = vec![];
+    MENTIONS_CHECKED.fetch_add(mentions.len() as u64, std::sync::atomic::Ordering::Relaxed);
     for m in methods {
         let n = mentions.iter().filter(|x| eq(x, m)).count();
         if n != 1 {
@@ -146,7 +147,12 @@ fn method_findings(mentions: &[String], methods: &[String], eq: impl Fn(&str, &s
     out
 }
 
+/// vacuity counters: references resolved against definitions, method mentions compared
+pub static REFS_CHECKED: std::sync::atomic::AtomicU64 = std::sync::atomic::AtomicU64::new(0);
+pub static MENTIONS_CHECKED: std::sync::atomic::AtomicU64 = std::sync::atomic::AtomicU64::new(0);
+
 fn undefined(refs: &[(String, usize)], defined: &BTreeSet<String>, toks: &[&Tok], scope: &str) -> Vec<Finding> {
+    REFS_CHECKED.fetch_add(refs.len() as u64, std::sync::atomic::Ordering::Relaxed);
     let mut seen = BTreeSet::new();
     let mut out = vec![];
     for (r, i) in refs {
@@ -631,19 +637,35 @@ pub fn check_rs(l: &Lexed, v: &View, target: Target) -> Vec<Finding> {
     out
 }
 
+/// undefined-name and method-count findings (the token stream is assumed to be intact)
 pub fn closure(target: Target, l: &Lexed, v: &View) -> Vec<Finding> {
-    let mut out = unterminated(l);
-    let toks = code_tokens(l);
-    if let Some(f) = balance(&toks) {
-        out.push(f);
-    }
-    out.extend(match target {
+    match target {
         Target::Js => check_js(l, v),
         Target::Ts => check_ts(l, v),
         Target::Mo => check_mo(l, v),
         t => check_rs(l, v, t),
-    });
-    out
+    }
+}
+
+/// Number of type definition sites in the output.
+pub fn definition_count(target: Target, l: &Lexed) -> usize {
+    let toks = code_tokens(l);
+    let mut n = 0;
+    for i in 0..toks.len() {
+        if ident(toks.get(i + 1).copied()).is_none() && !is_p(toks.get(i + 1).copied(), '!') {
+            continue;
+        }
+        let hit = match target {
+            Target::Js => is_id(Some(toks[i]), "const"),
+            Target::Ts => (is_id(Some(toks[i]), "type") || is_id(Some(toks[i]), "interface")) && i > 0 && is_id(Some(toks[i - 1]), "export"),
+            Target::Mo => is_id(Some(toks[i]), "type"),
+            _ => ["struct", "enum", "type", "define_function", "define_service"].iter().any(|k| is_id(Some(toks[i]), k)),
+        };
+        if hit {
+            n += 1;
+        }
+    }
+    n
 }
 
 /// Definition names that occur more than once (an observation, not a violation: the
@@ -711,10 +733,45 @@ pub fn kind_seq(l: &Lexed) -> Vec<(u32, usize)> {
     out
 }
 
-pub fn differential(hostile: &Lexed, benign: &Lexed) -> Option<String> {
+fn kind_name(c: u32) -> String {
+    match c {
+        1 => "identifier".into(),
+        2 => "string".into(),
+        3 => "comment".into(),
+        4 => "number".into(),
+        5 => "lifetime".into(),
+        6 => "char".into(),
+        c => format!("`{}`", char::from_u32(c - 0x100).unwrap_or('?')),
+    }
+}
+
+/// `unordered`: compare the multisets of token kinds (the twin may order fields / methods
+/// differently); otherwise the sequences.
+pub fn differential(hostile: &Lexed, benign: &Lexed, unordered: bool) -> Option<String> {
     let a = kind_seq(hostile);
     let b = kind_seq(benign);
     let count = |l: &Lexed, k: Kind| l.toks.iter().filter(|t| t.kind == k).count();
+    if unordered {
+        let ms = |s: &[(u32, usize)]| {
+            let mut m: BTreeMap<u32, i64> = BTreeMap::new();
+            for (c, _) in s {
+                *m.entry(*c).or_insert(0) += 1;
+            }
+            m
+        };
+        let (ma, mb) = (ms(&a), ms(&b));
+        if ma == mb {
+            return None;
+        }
+        let mut diff = vec![];
+        for k in ma.keys().chain(mb.keys()).collect::<BTreeSet<_>>() {
+            let (x, y) = (ma.get(k).copied().unwrap_or(0), mb.get(k).copied().unwrap_or(0));
+            if x != y {
+                diff.push(format!("{} {x} vs {y}", kind_name(*k)));
+            }
+        }
+        return Some(format!("token-kind multisets differ (hostile vs placeholder): {}", diff.join(", ")));
+    }
     let show = |l: &Lexed, s: &[(u32, usize)], at: usize| -> String {
         let lo = at.saturating_sub(3);
         let hi = (at + 4).min(s.len());
